@@ -156,10 +156,12 @@ def run(ctx, deep=False):
                           kind="input", scenario=["connect", model, aid, name, serial], implementation_output=why, spec_verdict="the given identity, the model's class, host and port")
             break
     # factory: returned clients
-    for _ in range(60 if thorough else 12):
-        a4 = [(rng.choice([1, 2, 5]), valid(4, rng))] if rng.random() < 0.7 else []
-        a5 = [(rng.choice([1, 2, 5]), valid(5, rng))] if rng.random() < 0.7 else []
-        f = discharness.run_factory(a4, a5)
+    for k in range(60 if thorough else 16):
+        a4 = [(rng.choice([1, 2, 5, 9]), valid(4, rng))] if rng.random() < 0.7 or k < 4 else []
+        a5 = [(rng.choice([1, 2, 5, 9]), valid(5, rng))] if rng.random() < 0.7 or k < 4 else []
+        # broadcast, or unicast to a known host (both generations are still asked, each on its own port, and may both answer)
+        rh = rng.choice([None, None, "192.168.1.5"])
+        f = discharness.run_factory(a4, a5, remote_host=rh)
         exp = []
         for t, d in a4:
             p = d.split(b",")
@@ -169,7 +171,7 @@ def run(ctx, deep=False):
             exp.append(("AIRTOUCH_5", p[0].decode(), 9005, p[3].decode(), p[4].decode(), p[1].decode()))
         ctx.case(json.dumps(["factory", [x.hex() for _, x in a4 + a5]]))
         if sorted(f["clients"]) != sorted(exp):
-            ctx.violation("C18:factory", "factory.discover() returned %s, expected %s" % (f["clients"], exp), kind="input",
+            ctx.violation("C18:factory", "factory.discover(%s) returned %s, expected %s" % ("remote_host=%r" % rh if rh else "", f["clients"], exp), kind="input",
                           scenario=["factory", fmt(a4), fmt(a5)], implementation_output=str(f["clients"]), spec_verdict=str(exp))
     ctx.sample({"gen": cases[0][0], "arrivals": fmt(cases[0][1]), "search": {"sent": reals[0]["sent"], "ret": reals[0]["ret"]}})
     ctx.assumptions += ["real socket binding / broadcast is environment (socket.socket is replaced by a stub inside comms.discovery)",
